@@ -19,6 +19,7 @@ import logging
 
 import websockets.asyncio.server
 
+from bumble import core
 from bumble.transport.common import ParserSource, PumpedPacketSink, Transport
 
 # -----------------------------------------------------------------------------
@@ -77,7 +78,10 @@ async def open_ws_server_transport(spec: str) -> Transport:
             try:
                 async for packet in connection:
                     if isinstance(packet, bytes):
-                        self.source.parser.feed_data(packet)
+                        try:
+                            self.source.parser.feed_data(packet)
+                        except core.InvalidPacketError:
+                            logger.warning('invalid packet, ignoring data')
                     else:
                         logger.warning('discarding packet: not a BINARY frame')
             except websockets.WebSocketException as error:
